@@ -71,6 +71,7 @@ def build_go_tools(prop, log):
 
 def regenerate_facts(log):
     out_path = os.path.join(LEAN, "Vegeta", "Extracted", "Facts.lean")
+    os.makedirs(os.path.dirname(out_path), exist_ok=True)
     tmp = out_path + ".new"
     if os.path.exists(tmp):
         os.remove(tmp)
